@@ -22,7 +22,11 @@ _THEOREM_NAMES = ["C18_relative_iff", "C18_relative_join", "C18_join_relative", 
                   # second review
                   "C18_parse_wf", "C18_parse_render_parse", "C18_relative_join_wf", "C18_render_injective",
                   "C18_string_level", "C18_relocate_to_none", "C18_relocate_from_none", "C18_recordings_of_mapPath",
-                  "C18_loaded_recordings", "C18_relocate_collection", "C18_passthrough_collection", "C18_adapter_table"]
+                  "C18_loaded_recordings", "C18_relocate_collection", "C18_passthrough_collection", "C18_adapter_table",
+                  # follow-up: histories and construction paths
+                  "C18_session_save_ok", "C18_session_save_fails", "C18_session_file_changes", "C18_session_frame",
+                  "C18_session_load", "C18_session_relocate", "C18_session_failed_save_keeps_file",
+                  "C18_session_document_reused", "C18_saves_history_free", "C18_dispatch_table", "C18_signature_table"]
 THEOREMS = [_T + n for n in _THEOREM_NAMES]
 LEVEL_TEXT = ("Lean theorems over a model of POSIX pure paths (parse, render, relative_to, join as pathlib computes "
               "them; every string parses to a well-formed path and parse . render is the identity on those) and of the "
@@ -1127,7 +1131,82 @@ def _adapter_rows():
     return rows
 
 
+def _dispatch_rows():
+    """(collection type, `collection_type` of the document `to_aeof` makes of a smallest instance of the class,
+    the same for an instance of a user-defined subclass of the class) -- observed by converting"""
+    conv = _converters()
+    if conv is None:
+        raise LookupError("soundevent.io.aoef.to_aeof / to_soundevent not found")
+    rng = random.Random("C18-dispatch")
+    rows = []
+    for ty in aoefgen.TYPES:
+        cj = _minimal(rng, ty, "/c18 probe/x.wav")
+        seen = []
+        for how in ("ctor", "subclass"):
+            obj = _construct(cj, how)
+            if how == "subclass" and type(obj).__name__[:3] != "Lab":
+                seen.append("<no subclass instance could be built>")
+                continue
+            try:
+                seen.append(str(conv[0](obj).data.collection_type))
+            except Exception as e:  # noqa: BLE001
+                seen.append(f"<{type(e).__name__}>")
+        rows.append((ty, seen[0], seen[1]))
+    return rows
+
+
+SIG_FUNCTIONS = [("io.save", "soundevent.io", "save"), ("io.load", "soundevent.io", "load"),
+                 ("aoef.save", "soundevent.io.aoef", "save"), ("aoef.load", "soundevent.io.aoef", "load"),
+                 ("aoef.to_aeof", "soundevent.io.aoef", "to_aeof"), ("aoef.to_soundevent", "soundevent.io.aoef", "to_soundevent")]
+
+
+def _signature_rows():
+    """(function, parameter, position among the positional parameters) of the public functions, by
+    `inspect.signature`; a function that is gone or takes `*args` is not listed"""
+    import importlib
+    import inspect
+    rows = []
+    for label, mod, name in SIG_FUNCTIONS:
+        try:
+            fn = getattr(importlib.import_module(mod), name, None)
+            params = list(inspect.signature(fn).parameters.values())
+        except Exception:  # noqa: BLE001
+            continue
+        if any(q.kind == q.VAR_POSITIONAL for q in params):
+            continue
+        pos = [q.name for q in params if q.kind in (q.POSITIONAL_ONLY, q.POSITIONAL_OR_KEYWORD)]
+        rows += [(label, n, i) for i, n in enumerate(pos)]
+    return rows
+
+
 def _tables(ctx):
+    ctx.stage("table: adapters", _table_adapters, ctx)
+    ctx.stage("table: dispatch of subclass instances", _table_dispatch, ctx)
+    ctx.stage("table: positional parameters", _table_signatures, ctx)
+    ctx.discharge(["Proofs.C18"])
+
+
+def _table_dispatch(ctx):
+    rows = _dispatch_rows()
+    q = lambda x: json.dumps(x, ensure_ascii=False)
+    src = ("def extractedDispatch : List SE.Proofs.C18.DispatchRow := ["
+           + ", ".join(f"⟨{q(t)}, {q(a)}, {q(b)}⟩" for t, a, b in rows) + "]\n"
+           "example : SE.Proofs.C18.DispatchOK extractedDispatch := by decide\n"
+           "example (c : SE.Aoef.Collection) : ∃ r ∈ extractedDispatch, r.type = c.typeName ∧ r.exact = c.typeName ∧\n"
+           "    r.subclass = c.typeName := SE.Proofs.C18.C18_dispatch_table extractedDispatch (by decide) c\n")
+    ctx.obligation("subclass_instances_use_their_types_adapter", src, {"rows": rows})
+
+
+def _table_signatures(ctx):
+    rows = _signature_rows()
+    q = lambda x: json.dumps(x, ensure_ascii=False)
+    src = ("def extractedSignatures : List (String × String × Nat) := ["
+           + ", ".join(f"({q(f)}, {q(n)}, {i})" for f, n, i in rows) + "]\n"
+           "example : SE.Proofs.C18.SigOK extractedSignatures := by decide\n")
+    ctx.obligation("positional_parameters_as_called", src, {"rows": rows, "listed": sorted({f for f, _n, _i in rows})})
+
+
+def _table_adapters(ctx):
     rows = _adapter_rows()
     b = lambda x: "true" if x else "false"
     lean_rows = ", ".join(f'⟨{json.dumps(n, ensure_ascii=False)}, {k}, {b(s)}, {b(f)}, {b(j)}, {b(p)}⟩' for n, k, s, f, j, p in rows)
@@ -1137,7 +1216,6 @@ def _tables(ctx):
            "    r.storesRelative = true ∧ r.failsOutside = true ∧ r.joinsOnLoad = true ∧ r.passThrough = true :=\n"
            "  SE.Proofs.C18.C18_adapter_table extractedAdapters (by decide) c\n")
     ctx.obligation("adapter_table_threads_audio_dir", src, {"rows": rows})
-    ctx.discharge(["Proofs.C18"])
 
 
 def _model_args(*keys):
@@ -1170,11 +1248,14 @@ OPS = {
 
 
 # ------------------------------------------------------------------ generators
+DEEP_DIR = "/" + "/".join(f"level {i}" for i in range(40))
+LONG_NAME = "n" * 250 + ".wav"
 # directories under which the recordings of a collection lie (absolute and relative; blanks, tabs, decomposed
 # unicode, a repeated name, the two-slash root, `..` inside the directory's own spelling)
 ABS_DIRS = ["/data/audio", "/", "/a b/ünï/x.y", "/data", "/data/audio/sub", "/audio/x/audio", "/data/ audio ",
-            "/estacio\u0301n/grabaciones", "/tab\tdir", "//net/share", "/data/audio/..", "/data/../data/audio", "/..."]
-REL_DIRS = ["rel/dir", "rel", "audio", ".", "", "../up", " rel "]
+            "/estacio\u0301n/grabaciones", "/tab\tdir", "//net/share", "/data/audio/..", "/data/../data/audio", "/...",
+            DEEP_DIR]
+REL_DIRS = ["rel/dir", "rel", "audio", ".", "", "../up", " rel ", "~/audio", "~"]     # `~` is a name like any other
 DIRS = ABS_DIRS + REL_DIRS
 LOAD_DIRS = DIRS + ["/mnt/other disk", "elsewhere", "/mnt/b", "//net/x", "..", "/mnt/ b ", "/mnt/estaci\u00f3n"]
 
@@ -1183,7 +1264,7 @@ DIR_PARTS = ["sub", "a b", "ünï", "2024", "x.y", ".hidden", "...", "estacio\u0
 FILE_NAMES = ["rec.wav", "ñandú 1.WAV", "a.b.c.flac", "rec", " ", "grabacio\u0301n n\u0303u.wav", "grabaci\u00f3n \u00f1u.wav",
               "\u1112\u1161\u11ab.wav", " lead.wav", "trail.wav ", "tab\t.wav", "\ttab.wav", "end.wav\t", "..wav", "...",
               "..hidden", "audio", "audio.wav", "data", "~", "-", "#1.wav", "%2e%2e", "a\\b.wav", "new\nline.wav",
-              " nbsp.wav ", "A\u030a.wav", "　"]
+              " nbsp.wav ", "A\u030a.wav", "　", LONG_NAME]
 
 
 def _last_name(base):
@@ -1501,10 +1582,10 @@ def _route_cases(ctx, rng, reps=1):
 # -- small-scope exhaustive grid -------------------------------------------------------------------------------
 GRID_REC = ["/data/audio/x.wav", "/data/audio/sub/x.wav", "/data/audio", "/data/audio/../audio/x.wav", "/data/audio/audio",
             "/data/audio2/x.wav", "/data/x.wav", "data/audio/x.wav", "x.wav", "//data/audio/x.wav", "/data/audio/ x.wav ",
-            "/data/audio/e\u0301.wav", "/data/audio/.../x.wav", "/x.wav"]
+            "/data/audio/e\u0301.wav", "/data/audio/.../x.wav", "/x.wav", "~/x.wav"]
 GRID_SAVE = [None, "/data/audio", "/data/audio/", "/data", "/", "data/audio", "", "/data/audio/sub/..", "/data/audio2",
-             "//data/audio", "/data/aud", "/DATA/audio"]
-GRID_LOAD = [None, "/mnt/b", "/", "", "b c/", "//net/x", ".."]
+             "//data/audio", "/data/aud", "/DATA/audio", "~"]
+GRID_LOAD = [None, "/mnt/b", "/", "", "b c/", "//net/x", "..", "~/b"]
 
 
 def _minimal(rng, ty, path):
@@ -1539,18 +1620,56 @@ def _grid_cases(ctx):
         minimal = {p: _minimal(rng, ty, p) for p in GRID_REC}
         for p, A in itertools.product(GRID_REC, GRID_SAVE):
             n += 1
-            how = "path" if n % 2 else "str"
+            how = DIR_KINDS_SAVE[n % 4]
             stored.append({"collection": minimal[p], "audio_dir": A, "dir_as": how})
             fails = _want_relocated({"r": p}, A, None) is None
             for B in GRID_LOAD:
                 n += 1
-                if B is None or (not fails and (n + len(p)) % 3 == 0):
+                if B is None or (not fails and (n + len(p)) % 4 == 0):
                     reloc.append({"collection": minimal[p], "save_dir": A, "load_dir": B, "dir_as": how,
-                                  "load_as": "str" if n % 4 < 2 else "path"})
-    ctx.exhaustive["stored: 8 types x recording path x save directory"] = {
+                                  "load_as": DIR_KINDS_LOAD[n % 3]})
+    ctx.exhaustive["stored: 8 types x recording path x save directory (directory as str / Path / os.PathLike / PurePosixPath in turn)"] = {
         "types": len(aoefgen.TYPES), "recording_paths": GRID_REC, "save_dirs": GRID_SAVE, "cases": len(stored)}
-    ctx.exhaustive["relocate: 8 types x recording path x save directory x (load directory: None always; the others 1 in 3 when the save succeeds)"] = {
+    ctx.exhaustive["relocate: 8 types x recording path x save directory x (load directory: None always; the others 1 in 4 when the save succeeds)"] = {
         "load_dirs": GRID_LOAD, "cases": len(reloc)}
+    return stored, reloc
+
+
+PRODUCT_APIS = [{}, {"format": None}, {"api": "aoef"}, {"api": "positional"}, {"api": "positional_full"},
+                {"api": "aoef_positional"}, {"api": "convert"}, {"api": "convert_positional"}]
+
+
+def _product_cases(ctx):
+    """the options of the public functions against each other and against the input classes (HISTORIES.md 3):
+    collection type x public route (keyword and positional) x kind of the directory argument x recording inside /
+    outside, with the construction path, the kind of `Recording.path` and the kind of the file name taken in turn"""
+    rng = random.Random("C18-product")
+    stored, reloc = [], []
+    n = 0
+    for ty in aoefgen.TYPES:
+        cin = _minimal(rng, ty, "/data/audio/sub dir/x.wav")
+        cout = _minimal(rng, ty, "/data/audio2/x.wav")
+        for api in PRODUCT_APIS:
+            for how in DIR_KINDS_SAVE:
+                for cj in (cin, cout):
+                    n += 1
+                    extra = {"build": BUILD_HOWS[n % len(BUILD_HOWS)], "target_as": ["str", "path", "fspath", "pure"][(n // 2) % 4]}
+                    if n % 3 == 0:
+                        extra["rec_path_as"] = "str"
+                    if cj is cout:
+                        extra["pre"] = [None, "file", "longer", "fresh_dir"][(n // 2) % 4]
+                    stored.append({"collection": cj, "audio_dir": "/data/audio" if n % 5 else "/data/audio/", "dir_as": how,
+                                   **api, **{k: v for k, v in extra.items() if v}})
+            for hl in DIR_KINDS_LOAD:
+                for with_type in ((False, True) if api.get("api") in (None, "aoef", "positional_full", "aoef_positional") else (False,)):
+                    n += 1
+                    reloc.append({"collection": cin, "save_dir": "/data/audio", "load_dir": ["/mnt/b", "rel b", "/", None][n % 4],
+                                  "dir_as": DIR_KINDS_SAVE[n % 4], "load_as": hl, **api, **({"type": True} if with_type else {}),
+                                  "build": BUILD_HOWS[n % len(BUILD_HOWS)], "target_as": ["str", "path", "fspath", "pure"][n % 4]})
+    ctx.exhaustive["stored: 8 types x 8 public routes (keyword / positional / converters) x 4 kinds of audio_dir x inside / outside"] = {
+        "routes": PRODUCT_APIS, "dir_kinds": DIR_KINDS_SAVE, "cases": len(stored)}
+    ctx.exhaustive["relocate: 8 types x 8 public routes x 3 kinds of load directory x with / without type="] = {
+        "load_dir_kinds": DIR_KINDS_LOAD, "cases": len(reloc)}
     return stored, reloc
 
 
@@ -1579,53 +1698,107 @@ def _disk_cases(ctx):
     return stored, reloc
 
 
-def _large_cases(ctx):
-    """collections far larger than the generator's usual ones (a batch / fast path for long lists would show here):
-    every recording inside, and the last / a middle one outside"""
-    rng = random.Random("C18-large")
-    stored, reloc = [], []
-    for ty in aoefgen.TYPES:
-        n = 130 if ty in ("recording_set", "dataset") else 36
-        g = PGen(rng, base="/data/audio", size=0.8, itself=0.0)
-        g.recordings = [g.recording(i) for i in range(n)]
-        g.clips = [dict(g.clip(), recording=copy.deepcopy(r)) for r in g.recordings]
-        cj = g.collection(ty)
-        v = cj["value"]
-        if ty in ("recording_set", "dataset"):
-            v["recordings"] = copy.deepcopy(g.recordings)
-        elif ty in ANN_TYPES:
-            v["clip_annotations"] = [g.ca(copy.deepcopy(c)) for c in g.clips]
-            if ty == "annotation_project":
-                v["tasks"] = [g.task(c) for c in g.clips]
-        elif ty in PRED_TYPES:
-            v["clip_predictions"] = [g.cp(copy.deepcopy(c)) for c in g.clips]
-        else:
-            old = g.clips
-            ces = []
-            for c in old:
-                g.clips = [c]
-                ces.append(g.ce())
-            g.clips = old
-            v["clip_evaluations"] = ces
-        stored.append({"collection": cj, "audio_dir": "/data/audio", "dir_as": "path"})
-        reloc.append({"collection": cj, "save_dir": "/data/audio/", "load_dir": "/mnt/other disk", "dir_as": "str", "load_as": "path"})
-        for where in (n - 1, n // 2):
-            bad = copy.deepcopy(cj)
-            u = g.recordings[where]["uuid"]
+def _py_coherent(cj):
+    """coherence of a generated collection, checked on the JSON itself (the part of `WF` that the generator can break:
+    every object with one uuid is one value; the collection's own member lists have distinct uuids).  Used instead of
+    the model's `wf` for the very large collections only, where the model's quadratic test takes minutes."""
+    seen = {}
 
-            def move(x):
-                if isinstance(x, dict):
-                    if x.get("uuid") == u and "samplerate" in x:
-                        x["path"] = "/data/audio2/stray.wav"
-                    for y in x.values():
-                        move(y)
-                elif isinstance(x, list):
-                    for y in x:
-                        move(y)
-            move(bad)
-            stored.append({"collection": bad, "audio_dir": "/data/audio", "dir_as": "str", "pre": "file"})
-    ctx.tally("large collections (130 recordings / 36 clips)", len(stored) + len(reloc))
-    return stored, reloc
+    def walk(x):
+        if isinstance(x, dict):
+            u = x.get("uuid")
+            if u is not None:
+                first = seen.setdefault(u, x)
+                if first is not x and first != x:
+                    return False
+            return all(walk(v) for v in x.values())
+        if isinstance(x, list):
+            return all(walk(v) for v in x)
+        return True
+    if not walk(cj):
+        return False
+    for key in ("recordings", "clip_annotations", "clip_predictions", "clip_evaluations", "tasks"):
+        ms = cj["value"].get(key)
+        if ms is not None and len({m["uuid"] for m in ms}) != len(ms):
+            return False
+    return True
+
+
+def _large_collection(rng, ty, n, lean=0.8):
+    """a collection of type `ty` with `n` recordings, each reached through its own clip (member lists for the
+    two recording-list types); the second result is the recordings in member order"""
+    g = PGen(rng, base="/data/audio", size=lean, itself=0.0)
+    g.recordings = [g.recording(i) for i in range(n)]
+    if n > 36:       # keep the very large ones small per recording: the paths are what matters here
+        for r in g.recordings:
+            r.update(owners=[], tags=r["tags"][:1], features=[], notes=[])
+    g.clips = [dict(g.clip(), recording=copy.deepcopy(r)) for r in g.recordings]
+    cj = g.collection(ty)
+    v = cj["value"]
+    if ty in ("recording_set", "dataset"):
+        v["recordings"] = copy.deepcopy(g.recordings)
+    elif ty in ANN_TYPES:
+        v["clip_annotations"] = [g.ca(copy.deepcopy(c)) for c in g.clips]
+        if ty == "annotation_project":
+            v["tasks"] = [g.task(c) for c in g.clips]
+    elif ty in PRED_TYPES:
+        v["clip_predictions"] = [g.cp(copy.deepcopy(c)) for c in g.clips]
+    else:
+        old = g.clips
+        ces = []
+        for c in old:
+            g.clips = [c]
+            ces.append(g.ce())
+        g.clips = old
+        v["clip_evaluations"] = ces
+    return cj, g.recordings
+
+
+def _with_outsider(cj, uuid, path="/data/audio2/stray.wav"):
+    bad = copy.deepcopy(cj)
+
+    def move(x):
+        if isinstance(x, dict):
+            if x.get("uuid") == uuid and "samplerate" in x:
+                x["path"] = path
+            for y in x.values():
+                move(y)
+        elif isinstance(x, list):
+            for y in x:
+                move(y)
+    move(bad)
+    return bad
+
+
+def _large_cases(ctx):
+    """collections far larger than the generator's usual ones, at the sizes where an implementation could switch
+    strategy (more than 16, more than 256, 1024 and more recordings: sorting, chunking, batching): every recording
+    inside, and the outsider first / in the middle / last.  -> (cases checked by the model's `wf`, cases checked by
+    `_py_coherent`)"""
+    rng = random.Random("C18-large")
+    small, huge = ([], []), ([], [])
+    full = ctx.thorough()
+    plan = {   # type -> [(number of recordings, positions of the outsider: first / middle / last)]
+        "recording_set": [(17, "fml"), (257, "f"), (1024, "m"), (1025, "l")],
+        "dataset": [(17, "fml"), (1100, "l")] + ([(257, "m"), (1024, "f")] if full else []),
+        "annotation_project": [(17, "fml"), (257, "m")] + ([(1030, "l")] if full else []),
+        "prediction_set": [(17, "fml"), (36, "m")] + ([(257, "f"), (1030, "l")] if full else []),
+        "evaluation": [(17, "fml"), (257, "l")] + ([(1030, "m")] if full else []),
+    }
+    for ty in aoefgen.TYPES:
+        member = ty in ("recording_set", "dataset")
+        for n, positions in plan.get(ty, [(17, "fml"), (36, "l")] + ([(257, "f"), (1030, "l")] if full else [])):
+            cj, recs = _large_collection(rng, ty, n, lean=0.8 if n <= 36 else 0.0)
+            stored, reloc = small if (member or n <= 36) else huge
+            hs, hl = rng.choice(DIR_KINDS_SAVE), rng.choice(DIR_KINDS_LOAD)
+            stored.append({"collection": cj, "audio_dir": "/data/audio", "dir_as": hs})
+            reloc.append({"collection": cj, "save_dir": "/data/audio/", "load_dir": "/mnt/other disk", "dir_as": hs, "load_as": hl})
+            for where in positions:
+                i = {"f": 0, "m": n // 2, "l": n - 1}[where]
+                stored.append({"collection": _with_outsider(cj, recs[i]["uuid"]), "audio_dir": "/data/audio",
+                               "dir_as": rng.choice(DIR_KINDS_SAVE), "pre": rng.choice(["file", "longer"])})
+            ctx.tally(f"large collection: {ty} with {n} recordings", 2 + len(positions))
+    return small, huge
 
 
 # -- sessions ---------------------------------------------------------------------------------------------------
@@ -1909,7 +2082,7 @@ def _histories(ctx, stored):
 
 
 def _collections(ctx):
-    stored, reloc, many, chain = _collection_cases(ctx, ctx.rng, ctx.budget(32, 600))
+    stored, reloc, many, chain = _collection_cases(ctx, ctx.rng, ctx.budget(26, 600))
     ctx.run_cases(OPS["stored"], _wf(ctx, stored))
     ctx.run_cases(OPS["relocate"], _wf(ctx, reloc))
     ctx.run_cases(OPS["relocate_many"], _wf(ctx, many))
@@ -1930,11 +2103,19 @@ def _grid(ctx):
     ctx.run_cases(OPS["relocate"], _wf(ctx, reloc))
 
 
+def _product(ctx):
+    stored, reloc = _product_cases(ctx)
+    ctx.run_cases(OPS["stored"], _wf(ctx, stored))
+    ctx.run_cases(OPS["relocate"], _wf(ctx, reloc))
+
+
 def _special(ctx):
-    for gen in (_disk_cases, _large_cases):
-        stored, reloc = gen(ctx)
-        ctx.run_cases(OPS["stored"], _wf(ctx, stored))
-        ctx.run_cases(OPS["relocate"], _wf(ctx, reloc))
+    stored, reloc = _disk_cases(ctx)
+    ctx.run_cases(OPS["stored"], _wf(ctx, stored))
+    ctx.run_cases(OPS["relocate"], _wf(ctx, reloc))
+    (stored, reloc), (hstored, hreloc) = _large_cases(ctx)
+    ctx.run_cases(OPS["stored"], _wf(ctx, stored) + [c for c in hstored if _py_coherent(c["collection"])])
+    ctx.run_cases(OPS["relocate"], _wf(ctx, reloc) + [c for c in hreloc if _py_coherent(c["collection"])])
 
 
 def _sessions(ctx):
@@ -1948,6 +2129,7 @@ def run(ctx):
     ctx.stage("paths", _paths, ctx)
     ctx.stage("grid", _grid, ctx)
     ctx.stage("routes", _routes, ctx)
+    ctx.stage("options x input classes", _product, ctx)
     ctx.stage("on disk / large", _special, ctx)
     ctx.stage("collections", _collections, ctx)
     ctx.stage("sessions", _sessions, ctx)
